@@ -170,9 +170,9 @@ package hessian
 //@   recoverpoints (*Decoder).ReadObject
 //@   decodeentries ToObject, (*Decoder).Decode, (*Decoder).ReadFrom, (*Decoder).ReadObject, (*goHessian).Read, (*goHessian).ReadFrom, (*goHessian).ToObject
 //@   pointerfields _refKey.addr
-//@   fieldwriters [C04,C05,C06] Decoder.refList (*Decoder).addDecoderRef (*Decoder).Reset
-//@   fieldwriters [C03,C05,C06] Decoder.clsDefList (*Decoder).readObjectDef (*Decoder).Reset
-//@   fieldwriters [C03,C06] Decoder.typList (*Decoder).readType (*Decoder).Reset
+//@   fieldwriters [C04,C05,C06,C11,C14] Decoder.refList (*Decoder).addDecoderRef (*Decoder).Reset
+//@   fieldwriters [C03,C05,C06,C11,C14] Decoder.clsDefList (*Decoder).readObjectDef (*Decoder).Reset
+//@   fieldwriters [C03,C06,C11,C14] Decoder.typList (*Decoder).readType (*Decoder).Reset
 //@   fieldwriters [C02,C05,C11] Encoder.clsDefList (*Encoder).writeClsDef (*Encoder).Reset
 //@   fieldwriters [C04,C11] Encoder.refMap (*Encoder).Reset
 //@   fieldwriters objectPool.cached newPool
